@@ -75,6 +75,8 @@ type FuncCtx struct {
 	loopsDone   map[*ssa.Function]bool
 	effSrc      map[string][]ssa.Value // per heap key: objects written through (static), for targeted loop havoc
 	effUnknown  map[string]bool
+	effMon      map[string]bool // element heaps changed (also) by monitor calls in the loop body: only guarded arrays change
+	paramAlias  map[ssa.Value]ssa.Value // parameters / free variables of callees inlined in a loop body -> argument at the call site
 }
 
 type monitorCtx struct {
@@ -634,6 +636,9 @@ func (fx *FuncCtx) loopArrive(st *State, b *ssa.BasicBlock, phase string) {
 		if !ok {
 			continue
 		}
+		for _, s := range side {
+			st.assume(s) // typing facts of the Go values the invariant reads
+		}
 		fx.oblige(st, fmt.Sprintf("loop%d/%s", k, phase), label, t, firstPos(b), inv.Src)
 	}
 }
@@ -675,6 +680,19 @@ func (fx *FuncCtx) loopHavoc(st *State, b *ssa.BasicBlock) {
 			sortOf = k.Sort
 		}
 		fx.keySorts[k.Key] = sortOf
+		if fx.effMon[k.Key] && strings.HasPrefix(sortOf, "(Array Int ") {
+			// monitor calls in the body: arrays held in guarded slice fields (and arrays allocated in the loop) change
+			cur := fx.heapGet(st.heap, k)
+			nv := fx.decls.fresh(k.Key, sortOf)
+			fx.decls.n++
+			qo := fmt.Sprintf("q$ga!%d", fx.decls.n)
+			st.assume("(forall ((" + qo + " Int)) (! " + implies(and(sx("<=", qo, st.top()), not(sx("select", fx.guardedArrays(), qo))), eq(sx("select", nv, qo), sx("select", cur, qo))) + " :pattern (" + sx("select", nv, qo) + ")))")
+			st.heap[k.Key] = nv
+			st.noteWrite(k.Key, "*")
+			if len(fx.effSrc[k.Key]) == 0 && !fx.effUnknown[k.Key] {
+				continue
+			}
+		}
 		// targeted havoc when every write in the loop goes through objects that are loop-invariant
 		if srcs := fx.effSrc[k.Key]; len(srcs) > 0 && !fx.effUnknown[k.Key] && strings.HasPrefix(sortOf, "(Array Int ") {
 			var refs []string
@@ -813,43 +831,21 @@ func (fx *FuncCtx) effectsOf(blocks map[*ssa.BasicBlock]bool) (cells []ssa.Value
 	keySet := map[string]HeapKey{}
 	fx.effSrc = map[string][]ssa.Value{}
 	fx.effUnknown = map[string]bool{}
-	addKeysOfAddr := func(addr ssa.Value) {
-		fx.staticAddrKeys(addr, cellSet, keySet)
-	}
+	fx.effMon = map[string]bool{}
+	fx.paramAlias = map[ssa.Value]ssa.Value{}
 	for b := range blocks {
 		for _, in := range b.Instrs {
-			switch in := in.(type) {
-			case *ssa.Store:
-				addKeysOfAddr(in.Addr)
-			case *ssa.MapUpdate:
-				if mt, ok := in.Map.Type().Underlying().(*types.Map); ok {
-					dom, vals, _, _ := fx.mapKeys(mt)
-					keySet[dom.Key] = dom
-					for _, v := range vals {
-						keySet[v.Key] = v
-					}
-					lk := HeapKey{"ML$" + sanitize(typeStr(mt)), "(Array Int Int)"}
-					keySet[lk.Key] = lk
-				}
-			case *ssa.Send:
-				for _, k := range chanKeys() {
-					keySet[k.Key] = k
-				}
-			case *ssa.Select:
-				for _, k := range chanKeys() {
-					keySet[k.Key] = k
-				}
-			case *ssa.UnOp:
-				if in.Op == token.ARROW {
-					for _, k := range chanKeys() {
-						keySet[k.Key] = k
-					}
-				}
-			case ssa.CallInstruction:
-				cc := in.Common()
-				if fx.callEffects(cc, cellSet, keySet) {
-					locks = true
-				}
+			if fx.instrEffects(in, cellSet, keySet, 0) {
+				locks = true
+			}
+		}
+	}
+	// cells written through the free variables of closures inlined in the body: the captured cell of the caller
+	for c := range cellSet {
+		if fv, ok := c.(*ssa.FreeVar); ok && fv.Parent() != fx.fn {
+			if a, known := fx.paramAlias[fv]; known && a != nil {
+				delete(cellSet, c)
+				cellSet[a] = true
 			}
 		}
 	}
@@ -861,6 +857,154 @@ func (fx *FuncCtx) effectsOf(blocks map[*ssa.BasicBlock]bool) (cells []ssa.Value
 		keys = append(keys, keySet[k])
 	}
 	return
+}
+
+// instrEffects: static write effects of one instruction (cells, heap keys; reports whether it may take a lock).  Calls of
+// functions without a contract are inlined by the executor, so their bodies are scanned too, with their parameters and
+// free variables aliased to the arguments at the call site (paramAlias) so that targeted havoc can still resolve them.
+func (fx *FuncCtx) instrEffects(in ssa.Instruction, cellSet map[ssa.Value]bool, keySet map[string]HeapKey, depth int) (locks bool) {
+	switch in := in.(type) {
+	case *ssa.Store:
+		fx.staticAddrKeys(in.Addr, cellSet, keySet)
+	case *ssa.MapUpdate:
+		if mt, ok := in.Map.Type().Underlying().(*types.Map); ok {
+			dom, vals, _, _ := fx.mapKeys(mt)
+			keySet[dom.Key] = dom
+			for _, v := range vals {
+				keySet[v.Key] = v
+			}
+			lk := HeapKey{"ML$" + sanitize(typeStr(mt)), "(Array Int Int)"}
+			keySet[lk.Key] = lk
+		}
+	case *ssa.Send:
+		for _, k := range chanKeys() {
+			keySet[k.Key] = k
+		}
+	case *ssa.Select:
+		for _, k := range chanKeys() {
+			keySet[k.Key] = k
+		}
+	case *ssa.UnOp:
+		if in.Op == token.ARROW {
+			for _, k := range chanKeys() {
+				keySet[k.Key] = k
+			}
+		}
+	case ssa.CallInstruction:
+		cc := in.Common()
+		if fx.callEffects(cc, cellSet, keySet) {
+			locks = true
+		}
+		for _, tgt := range fx.staticInlinees(cc) {
+			callee := tgt.fn
+			if depth >= maxInlineDepth {
+				fx.failf("inlining depth exceeded at %s (give it a contract)", callee.String())
+			}
+			fx.aliasParams(callee, cc, tgt.mc)
+			for _, b := range callee.Blocks {
+				for _, ci := range b.Instrs {
+					if fx.instrEffects(ci, cellSet, keySet, depth+1) {
+						locks = true
+					}
+				}
+			}
+		}
+	}
+	return locks
+}
+
+type inlineTarget struct {
+	fn *ssa.Function
+	mc *ssa.MakeClosure
+}
+
+// staticInlinees: the functions the executor may inline at this call (no contract, body available, in the module).  A
+// function value is traced through locals (every store to the local) and phis to the functions / closures it can hold.
+func (fx *FuncCtx) staticInlinees(cc *ssa.CallCommon) []inlineTarget {
+	if cc.IsInvoke() || isLogCall(cc) {
+		return nil
+	}
+	if _, ok := cc.Value.(*ssa.Builtin); ok {
+		return nil
+	}
+	var cands []inlineTarget
+	if callee := cc.StaticCallee(); callee != nil {
+		mc, _ := cc.Value.(*ssa.MakeClosure)
+		cands = append(cands, inlineTarget{callee, mc})
+	} else {
+		seen := map[ssa.Value]bool{}
+		var trace func(v ssa.Value)
+		trace = func(v ssa.Value) {
+			if v == nil || seen[v] {
+				return
+			}
+			seen[v] = true
+			switch x := v.(type) {
+			case *ssa.Function:
+				cands = append(cands, inlineTarget{x, nil})
+			case *ssa.MakeClosure:
+				if f, ok := x.Fn.(*ssa.Function); ok {
+					cands = append(cands, inlineTarget{f, x})
+				}
+			case *ssa.Phi:
+				for _, e := range x.Edges {
+					trace(e)
+				}
+			case *ssa.ChangeType:
+				trace(x.X)
+			case *ssa.UnOp:
+				if a, ok := x.X.(*ssa.Alloc); ok && x.Op == token.MUL {
+					for _, ref := range *a.Referrers() {
+						if sto, isStore := ref.(*ssa.Store); isStore && sto.Addr == a {
+							trace(sto.Val)
+						}
+					}
+				}
+			}
+		}
+		trace(cc.Value)
+	}
+	var out []inlineTarget
+	for _, c := range cands {
+		callee := c.fn
+		if callee == nil || callee.Blocks == nil {
+			continue
+		}
+		pkg := callee.Pkg
+		if pkg == nil && callee.Parent() != nil {
+			pkg = callee.Parent().Pkg
+		}
+		if pkg == nil || !strings.HasPrefix(pkg.Pkg.Path(), modPath) {
+			continue
+		}
+		if fx.eng.contractOf(callee) != nil || fx.eng.externContract(callee) != nil {
+			continue
+		}
+		out = append(out, c)
+	}
+	return out
+}
+
+func (fx *FuncCtx) aliasParams(callee *ssa.Function, cc *ssa.CallCommon, mc *ssa.MakeClosure) {
+	set := func(p ssa.Value, a ssa.Value) {
+		if prev, ok := fx.paramAlias[p]; ok && prev != a {
+			fx.paramAlias[p] = nil // called with different arguments: not resolvable statically
+			return
+		}
+		fx.paramAlias[p] = a
+	}
+	for i, p := range callee.Params {
+		if i < len(cc.Args) {
+			set(p, cc.Args[i])
+		}
+	}
+	if mc != nil {
+		for i, fv := range callee.FreeVars {
+			if i < len(mc.Bindings) {
+				set(fv, mc.Bindings[i])
+			}
+		}
+	}
 }
 
 func (fx *FuncCtx) noteEff(key string, src ssa.Value) {
@@ -888,6 +1032,12 @@ func (fx *FuncCtx) resolveRef(st *State, v ssa.Value, modCells []ssa.Value, body
 	}
 	switch x := v.(type) {
 	case *ssa.Parameter:
+		if x.Parent() != fx.fn {
+			if a := fx.paramAlias[x]; a != nil {
+				return fx.resolveRef(st, a, modCells, body, modKeys)
+			}
+			return "", false
+		}
 		if r, ok := st.regs[x]; ok && len(r.C) == want {
 			return r.C[0], true
 		}
@@ -911,12 +1061,35 @@ func (fx *FuncCtx) resolveRef(st *State, v ssa.Value, modCells []ssa.Value, body
 					}
 				}
 			case *ssa.Alloc:
+				if c.Parent() != fx.fn && !fx.allocIsObject(c) {
+					// local of an inlined callee: resolvable when it is the spill of a parameter (stored exactly once)
+					var src ssa.Value
+					n := 0
+					for _, ref := range *c.Referrers() {
+						if sto, isStore := ref.(*ssa.Store); isStore && sto.Addr == c {
+							n++
+							src = sto.Val
+						}
+					}
+					if pv, isParam := src.(*ssa.Parameter); isParam && n == 1 {
+						return fx.resolveRef(st, pv, modCells, body, modKeys)
+					}
+					return "", false
+				}
 				if !fx.allocIsObject(c) && !isMod(c) {
 					if cv, ok := st.cells[c]; ok && len(cv.C) == want {
 						return cv.C[0], true
 					}
 				}
 			case *ssa.FreeVar:
+				if c.Parent() != fx.fn {
+					if al, isAlloc := fx.paramAlias[c].(*ssa.Alloc); isAlloc && !isMod(al) {
+						if cv, ok := st.cells[al]; ok && len(cv.C) == want {
+							return cv.C[0], true
+						}
+					}
+					return "", false
+				}
 				if !isMod(c) {
 					if cv, ok := st.cells[c]; ok && len(cv.C) == want {
 						return cv.C[0], true
@@ -1030,6 +1203,27 @@ func (fx *FuncCtx) staticAddrKeys(addr ssa.Value, cellSet map[ssa.Value]bool, ke
 			k := fx.globalKey(a, c)
 			keySet[k.Key] = k
 		}
+	default:
+		pt, ok := addr.Type().Underlying().(*types.Pointer)
+		if !ok {
+			return
+		}
+		t := pt.Elem()
+		if _, isStruct := t.Underlying().(*types.Struct); isStruct && !isOpaqueSync(t) && !isTime(t) {
+			// whole-struct store through an object reference
+			for _, c := range fx.mode.comps(t) {
+				p, suf := splitSuffix(c.suffix)
+				k := fx.fieldKey(t, p, comp{suffix: suf, sort: c.sort, kind: c.kind})
+				keySet[k.Key] = k
+				fx.noteEff(k.Key, addr)
+			}
+			return
+		}
+		if al := fx.traceAlias(addr); al != nil && al != addr {
+			fx.staticAddrKeys(al, cellSet, keySet)
+			return
+		}
+		fx.failf("store through pointer %s (%s) inside a loop: target not resolvable statically", addr.Name(), addr.Type())
 	}
 }
 
@@ -1039,6 +1233,44 @@ func splitSuffix(s string) (path, suf string) {
 		return s[:i], s[i:]
 	}
 	return s, ""
+}
+
+// traceAlias follows a pointer value of an inlined callee back to the caller's value: parameters to the argument at
+// the call site, loads of parameter spills to the parameter.
+func (fx *FuncCtx) traceAlias(v ssa.Value) ssa.Value {
+	for n := 0; n < 16; n++ {
+		switch x := v.(type) {
+		case *ssa.Parameter:
+			if x.Parent() == fx.fn {
+				return v
+			}
+			a := fx.paramAlias[x]
+			if a == nil {
+				return nil
+			}
+			v = a
+		case *ssa.UnOp:
+			al, ok := x.X.(*ssa.Alloc)
+			if !ok || x.Op != token.MUL || fx.allocIsObject(al) {
+				return v
+			}
+			var src ssa.Value
+			cnt := 0
+			for _, ref := range *al.Referrers() {
+				if sto, isStore := ref.(*ssa.Store); isStore && sto.Addr == al {
+					cnt++
+					src = sto.Val
+				}
+			}
+			if _, isParam := src.(*ssa.Parameter); !isParam || cnt != 1 {
+				return v
+			}
+			v = src
+		default:
+			return v
+		}
+	}
+	return v
 }
 
 // staticFieldPath resolves nested FieldAddr chains: root struct type, dotted path; base = innermost non-FieldAddr value.
